@@ -188,6 +188,10 @@ class Ctx:
         self.cov['axioms'] = {k: v for k, v in axioms.items()}
         self.trusted.append('axioms reported by Print Assumptions: ' +
                             (', '.join(used) if used else 'none (all theorems closed under the global context)'))
+        if self.tier == 'thorough' and not missing and not bad_kw and os.environ.get('VERIF_NO_COQCHK') != '1':
+            self.cov['coqchk'] = coqchk(files[-1])
+            if not self.cov['coqchk'].get('ok'):
+                self.broken_obligation('coqchk', self.cov['coqchk'])
         if bad_kw:
             self.broken_obligation('forbidden-keyword', {'hits': bad_kw[:10]})
         if missing or len(done) != len(thms):
@@ -378,6 +382,26 @@ def print_assumptions(propfile):
             res[n] = []
         else:
             res[n] = re.findall(r'(?m)^([A-Za-z_][\w\.]*)\s*:', b[len('Axioms:'):])
+    return res
+
+
+def coqchk(propfile_rel, timeout=1500):
+    """Independent re-check (coqchk -o) of the property file and everything it depends on."""
+    mod = 'PV.' + str(Path(propfile_rel).with_suffix('')).replace('/', '.')
+    t0 = time.time()
+    p = subprocess.run(['timeout', str(timeout), 'coqchk', '-o', '-silent', '-Q', '.', 'PV', mod], cwd=COQ,
+                       capture_output=True, text=True)
+    out = p.stdout + p.stderr
+    m = re.search(r'\* Axioms:(.*?)\n\s*\n\* Constants/Inductives relying on type-in-type:(.*?)\n\s*\n'
+                  r'\* Constants/Inductives relying on unsafe \(co\)fixpoints:(.*?)\n\s*\n'
+                  r'\* Inductives whose positivity is assumed:(.*?)\n', out, re.S)
+    res = {'cmd': f'coqchk -o -silent -Q . PV {mod}', 'rc': p.returncode, 'wall_s': round(time.time() - t0, 1)}
+    if m:
+        ax, tit, unsafe, pos = [re.sub(r'\s+', ' ', g).strip() for g in m.groups()]
+        res.update(axioms=ax, type_in_type=tit, unsafe_fixpoints=unsafe, assumed_positivity=pos)
+        res['ok'] = p.returncode == 0 and tit == '<none>' and unsafe == '<none>' and pos == '<none>'
+    else:
+        res.update(ok=False, tail=out[-1500:])
     return res
 
 
